@@ -74,7 +74,8 @@ theorem C18_pinned_violates :
 *strict* applier (every context and deleted line must be present where the header says, all four
 header numbers must agree with the hunk body and with the position of the output, no fuzz): for
 every valid edit script whose index fields are the running positions, over files of any length,
-and for every context radius (`similar` uses 3) -/
+and for every context radius (`similar` uses 3). This is the statement for `text_diff.unified_diff()` as the pinned code
+called it; `C18_unified_fixed` below removes the hypothesis for the code as it is now. -/
 theorem C18_unified (n : Nat) (xs : List IOp) (old new : List Nat)
     (hs : InOrder 0 0 xs = true) (hv : Valid (xs.map (·.op)) old new = true) :
     applyU 0 0 old (hunks n xs old new) = some new :=
@@ -104,16 +105,25 @@ range is written with the line *before* it) are read back by a patch tool as the
 theorem C18_header_roundtrip (s e : Nat) (h : s ≤ e) : decodeRange (encodeRange s e) = (s, e - s) :=
   UnifiedLemmas.range_roundtrip s e h
 
-/-- the hypothesis `InOrder` is needed: with a stale index field on the first operation of a hunk the
-header is wrong and the strict applier rejects the diff (the real scripts are checked for this by
-the correspondence, which runs `applyU` on them) -/
-theorem C18_unified_stale_index_rejected :
-    let old := [1, 2, 3]
-    let new := [1, 9, 2, 3]
-    let good : List IOp := [⟨.equal 1, 0, 0⟩, ⟨.insert 1, 1, 1⟩, ⟨.equal 2, 1, 2⟩]
-    let stale : List IOp := [⟨.insert 1, 2, 1⟩, ⟨.equal 2, 1, 2⟩]
-    applyU 0 0 old (hunks 3 good old new) = some new ∧
-    applyU 0 0 old (hunks 0 stale old new) = none := by decide
+/-- **... and for the code as it is now** (`renumber_ops`, fix a2545ec): no hypothesis on the index fields is left -
+whatever `similar`'s compaction did to them, the printed hunks are accepted by the strict applier and reproduce the
+formatted file, for every valid script -/
+theorem C18_unified_fixed (n : Nat) (xs : List IOp) (old new : List Nat)
+    (hv : Valid (xs.map (·.op)) old new = true) :
+    applyU 0 0 old (hunksFixed n xs old new) = some new :=
+  UnifiedLemmas.unified_fixed n xs old new hv
+
+/-- the code as pinned violated the property: on the script `similar` really produces for `tests/inputs/table-6.lua`
+(found by the thorough tier of the `diffuni` correspondence, whose model-side applier rejected it; GNU `patch` calls
+the printed diff malformed) the header is `-1,2` over a body with three old-side lines. Line ids: the inserted line
+has the text of the line it was shifted across. -/
+theorem C18_unified_pinned_violates :
+    let old := [0, 1, 2]
+    let new := [0, 2, 2]
+    let xs : List IOp := [⟨.equal 1, 0, 0⟩, ⟨.delete 1, 1, 2⟩, ⟨.equal 1, 2, 1⟩, ⟨.insert 1, 2, 2⟩]
+    Valid (xs.map (·.op)) old new = true ∧
+    applyU 0 0 old (hunks 3 xs old new) = none ∧
+    applyU 0 0 old (hunksFixed 3 xs old new) = some new := by decide
 
 /-! ## non-vacuity -/
 example : Valid [.equal 1, .replace 1 2, .delete 1, .equal 1, .insert 1] [1, 2, 3, 4] [1, 7, 8, 4, 9] = true ∧
